@@ -5,7 +5,7 @@ implementation, sync.Mutex, defer order and utilruntime.HandleCrash are modelled
 exhibit runtime-level leaks other than the relay goroutine parked at one of its program points.  This module ties the
 model to the real hijackWatch: families of schedules run by /verif/harness_c20 on real goroutines, a monitor coding the
 property directly on the observations, and the comparison of every observation with the model's sequential driver."""
-import itertools, json, os
+import itertools, json, os, re, subprocess
 from concurrent.futures import ThreadPoolExecutor
 from lib import core
 from lib.core import Zl, Bl, natl
@@ -254,13 +254,31 @@ def predict(case, variant="Repaired"):
 
 
 # ------------------------------------------------------------------ running
+def run_part(part, timeout=1200):
+    """one harness process for a list of cases; when the process dies (a panic in a goroutine nothing recovers, e.g. a
+    double close in Stop, takes the whole process down, as it would take down the user's process) the cases are run
+    one by one to find the schedule that kills it"""
+    try:
+        return core.run_harness("watch", part, timeout, binary=BIN)
+    except core.BuildError as e:
+        msg = "the process running the hijacked watch died: " + str(e)[-500:]
+        if len(part) == 1:
+            return [{"harness_error": msg}]
+        res = []
+        for c in part:
+            res += run_part([c], timeout)
+        if not any("harness_error" in o for o in res):
+            res[0] = {"harness_error": msg + " (one of a shard of %d schedules; not reproduced when run alone)" % len(part)}
+        return res
+
+
 def run_sharded(cases, shards=16, timeout=1200):
     if len(cases) < 48:
-        return core.run_harness("watch", cases, timeout, binary=BIN)
+        return run_part(cases, timeout)
     per = (len(cases) + shards - 1) // shards
     parts = [cases[i:i + per] for i in range(0, len(cases), per)]
     with ThreadPoolExecutor(max_workers=shards) as ex:
-        res = list(ex.map(lambda part: core.run_harness("watch", part, timeout, binary=BIN), parts))
+        res = list(ex.map(lambda part: run_part(part, timeout), parts))
     return [o for part in res for o in part]
 
 
@@ -384,6 +402,84 @@ def run(ctx, depth):
     check_family(ctx, "race", cases, correspond=False, info={
         "domain": "source steps and consumer steps run in two concurrent goroutines without settling; monitor only "
                   "(order/type/payload of what was received, no panic, Stop => closed and no relay goroutine)"})
+    run_race_detector(ctx, depth)
+
+
+def run_race_detector(ctx, depth):
+    """the same harness built with Go's race detector (go build -race): schedules in which the source closes while the
+    consumer stops, and in which several owners stop the watch at the same moment.  A report whose two conflicting
+    accesses are both in hijack.go is an unsynchronised access in the hijacked watch: with the right timing it is a
+    double close of the done channel or a send on the closed result channel."""
+    rng = ctx.rng
+    quick = depth == "quick"
+    try:
+        core.build_harness(BIN, race=True)
+    except core.BuildError as e:
+        ctx.notes.append("race detector not available: " + str(e)[:200])
+        ctx.families["race-detector"] = {"cases": 0, "note": "go build -race failed"}
+        return
+    n = 60 if quick else 1200
+    cases = []
+    for _ in range(n):
+        steps = random_steps(rng, rng.randint(3, 9))
+        for st in steps:
+            if st["op"] == "stop" and rng.random() < 0.7:
+                st["par"] = rng.choice([2, 2, 3, 4])
+        if not any(st["op"] == "stop" for st in steps):
+            steps.insert(rng.randrange(len(steps) + 1), {"op": "stop", "par": rng.choice([2, 3])})
+        if rng.random() < 0.5 and not any(st["op"] == "close" for st in steps):
+            steps.insert(rng.randrange(len(steps) + 1), {"op": "close"})
+        cases.append(case_of("racefree", steps, mode=rng.choice(["race", "race", "seq"])))
+
+    def one(part):
+        data = "\n".join(json.dumps(c, separators=(",", ":")) for c in part) + "\n"
+        env = dict(os.environ, GORACE="halt_on_error=0 history_size=2", VERIF_C20_WORKERS="1")
+        p = subprocess.run([os.path.join(core.BUILD, BIN + "_race"), "watch"], input=data, capture_output=True, text=True, timeout=900, env=env)
+        return p.returncode, p.stdout, p.stderr
+
+    def hijack_races(stderr):
+        found = []
+        for block in stderr.split("=================="):
+            if "WARNING: DATA RACE" not in block:
+                continue
+            # the top frame of each of the two conflicting accesses
+            tops = re.findall(r"(?:Read|Write|Previous read|Previous write) at [^\n]*\n\s+([^\n]+)\n\s+([^\n]+)", block)
+            if len(tops) >= 2 and all("helper/hijack.go" in t[1] for t in tops[:2]):
+                found.append(" / ".join("%s (%s)" % (t[0].strip(), t[1].strip().split("/")[-1].split(" ")[0]) for t in tops[:2]))
+        return found
+
+    per = 6
+    parts = [cases[i:i + per] for i in range(0, len(cases), per)]
+    with ThreadPoolExecutor(max_workers=8) as ex:
+        res = list(ex.map(one, parts))
+    nrace = 0
+    for part, (rcode, so, se) in zip(parts, res):
+        ctx.evaluations += len(part)
+        ctx.count("family:race-detector", len(part))
+        races = hijack_races(se)
+        outs = [json.loads(l) for l in so.splitlines() if l.strip()] if rcode == 0 else []
+        for c, o in zip(part, outs):
+            bad = monitor(c, o) if "harness_error" not in o else []
+            bad = [b for b in bad if not b.startswith(T)]
+            if bad:
+                ctx.violations.append({"family": "race-detector", "input": c, "observed": o, "clauses": bad, "signature": signature(c, bad)})
+        if rcode != 0 and not races:
+            ctx.violations.append({"family": "race-detector", "input": part, "observed": {"exit": rcode, "stderr": se[-1500:]},
+                                   "clauses": ["the harness process died: " + se[-300:]], "signature": {"kind": "crash"}})
+        if races:
+            nrace += 1
+            # which schedule: run the cases of this shard one by one
+            culprit = None
+            for c in part:
+                _r, _so, se1 = one([c])
+                if hijack_races(se1):
+                    culprit = c
+                    break
+            ctx.violations.append({"family": "race-detector", "input": culprit or part, "observed": {"race_reports": races[:3]},
+                                   "clauses": ["unsynchronised accesses in the hijacked watch (Go race detector): " + races[0]],
+                                   "signature": {"kind": "data-race", "where": races[0][:80]}})
+    ctx.families["race-detector"] = {"cases": len(cases), "shards_with_a_race_in_hijack.go": nrace,
+                                     "tie": "monitor + Go race detector on the real hijackWatch (not compared with the model)"}
 
 
 def search(ctx):
